@@ -12,7 +12,7 @@ use crate::runner::*;
 use crate::tape::Tape;
 
 pub const RULE: &str = "arr_to_u64 / arr_to_i64 / arr_to_f64 on byte slices of length 0..9 compared with from_be_bytes-based reference decoders \
-(all slices of length <= 2 quick / <= 3 thorough, a bit lattice for lengths 3..9, proptest-random slices with uniform length), and u64/i64/f64 values \
+(all slices of length <= 3, a bit lattice for lengths 3..9, proptest-random slices with uniform length), and u64/i64/f64 values \
 (boundary sets + random) written as one-element documents through TagWriter, the payload located with the reference header parser: minimal 1/2/4/8 width, \
 8-byte floats, and library decoder == reference decoder == original value (floats by bits). Non-trivial: slice length 0, 9, sign/width boundary, or any multi-byte slice; distinct by slice / value.";
 
@@ -273,13 +273,13 @@ pub fn run(rc: &mut RunCtx) {
     for p in 0..256u64 {
         plan.push((p, 2));
     }
-    if !rc.quick() {
+    {
         for p in 0..65536u64 {
             plan.push((p, 3));
         }
     }
     rc.run_indexed(STAGES[1], plan.len() as u64, true, &|i| Input::Args(vec![plan[i as usize].0, plan[i as usize].1]));
-    rc.run_pt(STAGES[2], rc.pick(200_000, 4_000_000), (8, 8));
+    rc.run_pt(STAGES[2], rc.pick(1_000_000, 10_000_000), (8, 8));
     // written values: lattice of C15 reused for integers, specials for floats
     let mut w: Vec<(u64, u64)> = Vec::new();
     for v in super::c15::lattice_u() {
@@ -301,7 +301,7 @@ pub fn run(rc: &mut RunCtx) {
     w.sort();
     w.dedup();
     rc.run_indexed(STAGES[3], w.len() as u64, true, &|i| Input::Args(vec![w[i as usize].0, w[i as usize].1]));
-    rc.run_pt(STAGES[4], rc.pick(60_000, 2_000_000), (12, 12));
+    rc.run_pt(STAGES[4], rc.pick(300_000, 4_000_000), (12, 12));
     rc.require_label("random_slices", "len0", 50_000);
     rc.require_label("random_slices", "len9", 50_000);
     rc.require_label("written_random", "sign_boundary", 10_000);
